@@ -336,13 +336,16 @@ where
     let consumer = unsafe { std::ptr::read(&self.consumer) };
     let producer_mailbox = unsafe { std::ptr::read(&self.producer_mailbox) };
     let subscriptions = unsafe { std::ptr::read(&self.subscriptions) };
+    // Carry the flag over: a closed handle stays closed (otherwise a second close/drop
+    // decrements `receiver_count` again).
+    let closed = unsafe { std::ptr::read(&self.closed) };
     mem::forget(self);
     AsyncTopicReceiver {
       dispatcher,
       consumer,
       producer_mailbox,
       subscriptions,
-      closed: AtomicBool::new(false),
+      closed,
     }
   }
 }
